@@ -173,6 +173,9 @@ fn honest(drv: &mut Driver, rep: &mut Report, stream: &str, c: &Case, check_pred
     if got_s != model {
         rep.diverge(Failure { stream: stream.into(), index: idx, request: vec![rreq.clone()], impl_out: got_s, model_out: model, key: "ss:recv-model".into(), what: "Lean model receiverProcess and SoftSpokenOTReceiver::process disagree".into() });
     }
+    if got.is_none() && check_pred {
+        rep.pred_fail(Failure { stream: stream.into(), index: idx, request: vec![rreq.clone()], impl_out: "panic".into(), model_out: "first-round message".into(), key: "ss:honest-panic:receiver".into(), what: format!("SoftSpokenOTReceiver::process panics in an honest run [{}]", c.tag) });
+    }
     let o = got?;
     let sreq = send_req(&c.sid, &c.sd, &o.r1);
     // every other case: the sender has JUST rejected a corrupted copy of this message on the same thread (an abort leaves
